@@ -383,14 +383,31 @@ pub fn run(tier: Tier, seed: u64, replay: Option<String>) -> i32 {
         let (m128, rate) = ljobs[j];
         long_instruction_frames(&ctx, m128, rate);
     });
+    // frame lengths at and around powers of two (queue capacities, masks): floor(rate/50) = p-1, p, p, p+1
+    let mut corner_rates: Vec<usize> = Vec::new();
+    for p in [256usize, 512, 1024, 2048, 4096] {
+        corner_rates.extend([p * 50 - 1, p * 50, p * 50 + 49, p * 50 + 50]);
+    }
+    let cjobs: Vec<(bool, usize)> = [false, true].iter().flat_map(|m| corner_rates.iter().map(move |r| (*m, *r))).collect();
+    par_for(cjobs.len(), 1, |j| {
+        let (m128, rate) = cjobs[j];
+        long_instruction_frames(&ctx, m128, rate);
+        drain_schedules(&ctx, m128, rate, false);
+        let frame = spec(m128).frame as usize;
+        for t in [8usize, frame / 3, frame / 2 + 7, frame - 200] {
+            toggle_case(&ctx, m128, rate, 100, 0x10, t, None);
+        }
+    });
+    ctx.note("corner_rates", json!(corner_rates));
     configuration_corners(&ctx);
+    ctx.add_nontrivial(cjobs.len() as u64 * 69);
     ctx.add_nontrivial(jobs.len() as u64 + djobs.len() as u64 * 64 + ljobs.len() as u64);
     ctx.sample(json!({"rate":44100,"m128":false,"toggle_bit":16,"t":34944,"expected_edge_sample":"441 +- 1"}));
     ctx.note("toggle_cases", json!(jobs.len()));
     ctx.note("drain_patterns", json!(djobs.len() * 64));
     ctx.note("not_judged", json!("which frame the few samples belong to that are produced while the last instruction of a frame runs into the next one (they are counted by emulated time)"));
     ctx.finish(
-        "sample rates {8000,8001,11025,22050,44100,44099,48000,96000,192000,384000} x {48K,128K}: one OUT (FE) toggling bit 4 with its start at every T of the frame (quick: first, middle and last 256 T), sparser sets for bit 3, volumes {0,1,200} and two toggles closer than one sample; per drained frame floor(rate/50) samples (by emulated time), every sample before/after the edge window equals the level set, the edge within one sample of the OUT, all samples finite and bounded; all 64 drain/no-drain patterns over 6 frames x rates x machines x AY off / on and sounding (three tones + noise at full volume): queue always below two frames' worth, every sample finite and within (0.6 + 3.75) x volume/200; a free-running loop of 23/19/12-T instructions over 60 frames (frame ends overrun by varying amounts), drained at every boundary: exactly floor(rate/50) samples per frame at every rate; beeper disabled (EAR/MIC values leave the output at 0) and the AY switched on/off at run time at volumes 40/100/180 (levels keep following the volume). distinct_nontrivial = cases",
+        "sample rates {8000,8001,11025,22050,44100,44099,48000,96000,192000,384000} x {48K,128K}: one OUT (FE) toggling bit 4 with its start at every T of the frame (quick: first, middle and last 256 T), sparser sets for bit 3, volumes {0,1,200} and two toggles closer than one sample; per drained frame floor(rate/50) samples (by emulated time), every sample before/after the edge window equals the level set, the edge within one sample of the OUT, all samples finite and bounded; all 64 drain/no-drain patterns over 6 frames x rates x machines x AY off / on and sounding (three tones + noise at full volume): queue always below two frames' worth, every sample finite and within (0.6 + 3.75) x volume/200; a free-running loop of 23/19/12-T instructions over 60 frames (frame ends overrun by varying amounts), drained at every boundary: exactly floor(rate/50) samples per frame at every rate; the same three families at the 20 rates whose frame length is a power of two 256..4096 or next to one; beeper disabled (EAR/MIC values leave the output at 0) and the AY switched on/off at run time at volumes 40/100/180 (levels keep following the volume). distinct_nontrivial = cases",
         false,
         &["frame clock placed through the hook before each OUT; remaining frame is idle loop", "beeper-only machines for the edge test so the AY path does not blur levels"],
     )
